@@ -144,11 +144,15 @@ fn syms(wire: &[crate::session::Msg]) -> Vec<Sym> {
 // Parts 1 and 2: LogSync
 // ------------------------------------------------------------------------------------------
 
-fn log_sync_parts(rep: &mut Report, w: &World, configs: &[Config], dev_free: usize, dev_fault: usize, wall: Instant) {
+fn log_sync_parts(rep: &mut Report, w: &World, configs: &[(usize, Config)], dev_free: usize, dev_fault: usize, wall: Instant) {
     let authors = w.chains.authors.clone();
-    let acc = par_for(configs, rep.args.threads, wall, |idx, cfg, acc: &mut Acc| {
+    let acc = par_for(configs, rep.args.threads, wall, |_, (idx, cfg), acc: &mut Acc| {
+        let idx = *idx;
         // ---- part 1: no concurrent change
         let mut calls = [0usize, 0usize];
+        // violation classes this configuration shows without any concurrent change: a faulted run
+        // reports only classes the fault-free exploration of the same configuration did not show
+        let mut free_classes: std::collections::BTreeSet<&'static str> = Default::default();
         let tpl = [template(&w.chains, cfg, 0), template(&w.chains, cfg, 1)];
         let st = dfs(
             &crate::session::dfs_cfg(dev_free, wall),
@@ -169,16 +173,20 @@ fn log_sync_parts(rep: &mut Report, w: &World, configs: &[Config], dev_free: usi
                 let ctx = || format!("no concurrent store change; A wrote {:?}, B wrote {:?}; configuration: {}; schedule [{}]", words[0], words[1], describe(cfg), ch.describe());
                 let replay = || json!({"part": "no-fault", "config_index": idx, "config": to_json(cfg), "vector": ch.vector()});
                 if let Some(p) = &run.panic {
-                    let key = if p.starts_with(crate::session::SPIN) { "livelock/sync-loop-spins/no-concurrent-change" } else { "panic" };
+                    let spin = p.starts_with(crate::session::SPIN);
+                    free_classes.insert(if spin { "livelock/sync-loop-spins" } else { "panic" });
+                    let key = if spin { "livelock/sync-loop-spins/no-concurrent-change" } else { "panic/no-concurrent-change" };
                     acc.violation(key, rank, || format!("{p}; {}", ctx()), replay);
                     return;
                 }
                 if run.end != End::AllDone || run.outcome.iter().any(|o| *o != Outcome::Ok) {
+                    free_classes.insert("session-did-not-complete");
                     acc.violation("session-did-not-complete/no-concurrent-change", rank, || format!("end {:?}, outcomes {:?}; {}", run.end, run.outcome, ctx()), replay);
                     return;
                 }
                 for i in 0..2 {
                     if let Some(class) = language_violation(&words[i]) {
+                        free_classes.insert(class);
                         acc.violation(&format!("{class}/no-concurrent-change"), rank, || format!("side {} wrote {:?}; {}", ["A", "B"][i], words[i], ctx()), replay);
                     }
                 }
@@ -231,19 +239,21 @@ fn log_sync_parts(rep: &mut Report, w: &World, configs: &[Config], dev_free: usi
                             let replay = || json!({"part": "fault", "config_index": idx, "config": to_json(cfg), "side": side, "store_call": k, "mutation": m.describe(&authors), "vector": ch.vector()});
                             if let Some(p) = &run.panic {
                                 let class = if p.starts_with(crate::session::SPIN) { "livelock/sync-loop-spins" } else { "panic" };
-                                acc.violation(&format!("{class}/{eff}-{win}"), rank, || format!("{p}; {}", ctx()), replay);
+                                if !free_classes.contains(class) {
+                                    acc.violation(&format!("{class}/{eff}-{win}"), rank, || format!("{p}; {}", ctx()), replay);
+                                }
                                 return;
                             }
                             for i in 0..2 {
                                 if let Some(class) = language_violation(&words[i]) {
                                     // a side that never finished is reported below, not as "no-done"
-                                    if class == "no-done" && run.outcome[i] != Outcome::Ok {
+                                    if (class == "no-done" && run.outcome[i] != Outcome::Ok) || free_classes.contains(class) {
                                         continue;
                                     }
                                     acc.violation(&format!("{class}/{eff}-{win}"), rank, || format!("side {} wrote {:?}; {}", ["A", "B"][i], words[i], ctx()), replay);
                                 }
                             }
-                            if run.end != End::AllDone || run.outcome.iter().any(|o| *o != Outcome::Ok) {
+                            if (run.end != End::AllDone || run.outcome.iter().any(|o| *o != Outcome::Ok)) && !free_classes.contains("session-did-not-complete") {
                                 acc.violation(
                                     &format!("session-did-not-complete/{eff}-{win}"),
                                     rank,
@@ -375,35 +385,46 @@ fn frame_violation(frames: &[Frame]) -> Option<&'static str> {
     None
 }
 
-fn topic_part(rep: &mut Report, w: &World, configs: &[Config], dev: usize, wall: Instant) {
+fn topic_part(rep: &mut Report, w: &World, configs: &[(usize, Config)], dev: usize, wall: Instant) {
     let authors = w.chains.authors.clone();
-    let acc = par_for(configs, rep.args.threads, wall, |idx, cfg, acc: &mut Acc| {
-        let judge = |acc: &mut Acc, ch: &Chooser, run: &TopicRun, label: &str, what: String, replay: explorer::Value, rank: (u64, u64, u64)| {
+    let acc = par_for(configs, rep.args.threads, wall, |_, (idx, cfg), acc: &mut Acc| {
+        let idx = *idx;
+        let judge = |acc: &mut Acc, ch: &Chooser, run: &TopicRun, label: &str, what: String, replay: explorer::Value, rank: (u64, u64, u64), skip: &std::collections::BTreeSet<String>| -> Vec<String> {
+            let mut reported: Vec<String> = vec![];
             acc.steps += run.steps;
             acc.outcome(&("topic", &run.frames, &run.result, label));
             let ctx = format!("{what}; A wrote {:?}, B wrote {:?}; results {:?}; configuration: {}; schedule [{}]", run.frames[0], run.frames[1], run.result, describe(cfg), ch.describe());
+            let mut report = |acc: &mut Acc, class: &str, what: String| {
+                reported.push(class.to_string());
+                if !skip.contains(class) {
+                    acc.violation(&format!("{class}/{label}"), rank, || what, || replay.clone());
+                }
+            };
             if let Some(p) = &run.panic {
-                let class = if p.starts_with(crate::session::SPIN) { "livelock/sync-loop-spins" } else { "panic" };
-                acc.violation(&format!("{class}/topic-log-sync/{label}"), rank, || format!("{p}; {ctx}"), || replay.clone());
-                return;
+                let class = if p.starts_with(crate::session::SPIN) { "livelock/sync-loop-spins/topic-log-sync" } else { "panic/topic-log-sync" };
+                report(acc, class, format!("{p}; {ctx}"));
+                return reported;
             }
             for i in 0..2 {
                 if let Some(class) = frame_violation(&run.frames[i]) {
                     if class == "no-done" && run.result[i] != Some(Ok(())) {
                         continue;
                     }
-                    acc.violation(&format!("{class}/topic-log-sync/{label}"), rank, || format!("side {} wrote {:?}; {ctx}", ["A", "B"][i], run.frames[i]), || replay.clone());
+                    report(acc, &format!("{class}/topic-log-sync"), format!("side {} wrote {:?}; {ctx}", ["A", "B"][i], run.frames[i]));
                 }
             }
             let stray = run.result.iter().any(|r| matches!(r, Some(Err(e)) if e.contains("unexpected protocol message")));
             if stray {
-                acc.violation(&format!("stray-sync-frame-in-live-mode/{label}"), rank, || format!("a live-mode phase read a sync frame and failed the session; {ctx}"), || replay.clone());
+                report(acc, "stray-sync-frame-in-live-mode", format!("a live-mode phase read a sync frame and failed the session; {ctx}"));
             } else if run.end != End::AllDone || run.result.iter().any(|r| *r != Some(Ok(()))) {
-                acc.violation(&format!("session-did-not-complete/topic-log-sync/{label}"), rank, || format!("end {:?}; failed events {:?}; {ctx}", run.end, run.failed_events), || replay.clone());
+                report(acc, "session-did-not-complete/topic-log-sync", format!("end {:?}; failed events {:?}; {ctx}", run.end, run.failed_events));
             }
+            reported
         };
         // fault-free
         let mut calls = [0usize, 0usize];
+        let none: std::collections::BTreeSet<String> = Default::default();
+        let mut free_classes: std::collections::BTreeSet<String> = Default::default();
         let st = dfs(
             &crate::session::dfs_cfg(dev, wall),
             |ch: &Chooser| {
@@ -425,7 +446,7 @@ fn topic_part(rep: &mut Report, w: &World, configs: &[Config], dev: usize, wall:
                     calls = n;
                 }
                 let rank = (ch.deviations() as u64, idx as u64, ch.vector().len() as u64);
-                judge(acc, ch, &run, "no-concurrent-change", "no concurrent store change".into(), json!({"part": "topic/no-fault", "config_index": idx, "config": to_json(cfg), "vector": ch.vector()}), rank);
+                free_classes.extend(judge(acc, ch, &run, "no-concurrent-change", "no concurrent store change".into(), json!({"part": "topic/no-fault", "config_index": idx, "config": to_json(cfg), "vector": ch.vector()}), rank, &none));
             },
         );
         acc.absorb(&st);
@@ -453,6 +474,7 @@ fn topic_part(rep: &mut Report, w: &World, configs: &[Config], dev: usize, wall:
                                 format!("{} applied to side {}'s store before its store call #{k} ({:?})", m.describe(&authors), ["A", "B"][side], run.trace.get(fired).map(|c| c.kind)),
                                 json!({"part": "topic/fault", "config_index": idx, "config": to_json(cfg), "side": side, "store_call": k, "mutation": m.describe(&authors)}),
                                 rank,
+                                &free_classes,
                             );
                         },
                     );
@@ -500,12 +522,14 @@ pub fn run(mut rep: Report) -> i32 {
             1,
         )
     } else {
-        (strip(product(&[heights(0, 0, false), few(0, 1), few(1, 0)])), strip(product(&[heights(0, 0, false), few(1, 0)])), 1, 0)
+        (strip(product(&[heights(0, 0, true), few(0, 1), few(1, 0)])), strip(product(&[heights(0, 0, false), few(1, 0)])), 1, 0)
     };
     rep.rule = "configuration = per (author, log) slot the heights {none,0,1,2} of both sides (chains of length 4); mutation = prune(until) for every until, delete of every stored operation, insert of the next operation, insert of a prune-flagged next operation + prune, applied to one side's store before its store call k for every k of the fault-free run; non-trivial = mutation that lands after the side read its heights and before it read the entries of the mutated log".into();
     rep.set("configurations", json!({"log_sync": configs.len(), "topic_log_sync": topic_configs.len()}));
     let t0 = Instant::now();
     let wall = t0 + Duration::from_secs(if thorough { 420 } else { 28 });
+    let configs = crate::c19::spread(configs);
+    let topic_configs = crate::c19::spread(topic_configs);
     log_sync_parts(&mut rep, &w, &configs, dev_free, dev_fault, wall);
     let wall = t0 + Duration::from_secs(if thorough { 560 } else { 40 });
     rep.set("log_sync_wall_s", json!(t0.elapsed().as_secs_f64()));
